@@ -6,7 +6,7 @@
      ("runs" <file> nslots fuel stride lastonly (<history> ...))      lastonly<>0: only the answers of the last call
          per history, flat: "#" (model answers) "|" (spec answers) "|" (valid_op flags) "|" state "|" state ...
          abstract states: after every stride-th call and the last one (stride 0: the last one only)
-     ("wf" <file>)  ->  (wf_file no_define_file)
+     ("wf" <file> fuel)  ->  (wf_file no_define_file fuel_ok): the hypotheses of the theorems of Props/C10.v
    The abstract state is printed with objects named by their POSITION in the cache lists
    (unit: index in _cu_cache; entry: (unit index, index in _dielist)), which is what the
    harness can compute from the implementation's private attributes without relying on
@@ -220,7 +220,7 @@ Definition dispatch (req : sx) : sx :=
                                        (map g_op (gL h)))
                  (gL (nthx 6 l)))
   else if k =? "wf" then
-    let F := g_file (nthx 1 l) in SL [sx_bool (wf_file F); sx_bool (no_define_file F)]
+    let F := g_file (nthx 1 l) in SL [sx_bool (wf_file F); sx_bool (no_define_file F); sx_bool (fuel_ok F (gnat (nthx 2 l)))]
   else if k =? "wfdiag" then
     let F := g_file (nthx 1 l) in
     SL [sx_bool (units_chain 0 (f_units F) (f_info_size F));
